@@ -105,7 +105,7 @@ func viaTransport(key, pkt []byte) result {
 func main() {
 	run := vr.New("C04", "fault_enumeration")
 	run.Rule("base packets (R2-sealed server packets, 7 body lengths x 2 keys) x every single-bit flip of every byte, every truncation length, garbage ciphertext blocks, wrong key id / re-keying, attacker-with-key re-seals with every declared length in {-2^31,-1,2^31-1} u {len-33..len+33} x both msg_key choices, every msg_id parity; through messages.DeserializeEncrypted and through transport.ReadMsg; plus structural faults of unencrypted packets. non-trivial = distinct faulted packet (differs from the base packet)")
-	run.Assume("oracle: an altered, truncated or re-keyed packet must be refused with an error (producing even the original message from an altered packet is a violation); a re-seal whose declared length lies inside the plaintext and whose msg_key covers exactly that range is a legitimate message (body = declared range) and may be accepted as such or refused",
+	run.Assume("oracle: an altered, truncated or re-keyed packet must be refused with an error, except where the reference MTProto 1.0 peer itself opens it (an alteration confined to the unauthenticated padding): then exactly the message the reference opens may be returned; a re-seal whose declared length lies inside the plaintext and whose msg_key covers exactly that range is a legitimate message (body = declared range) and may be accepted as such or refused",
 		"acceptance of a bit-flipped packet would need a SHA-1 collision on msg_key; the oracle compares fields rather than relying on that")
 	keys := [][]byte{pat(256, func(i int) byte { return byte(i*7 + 1) }), pat(256, func(i int) byte { return byte(255 - i) })}
 	lens := []int{0, 4, 12, 16, 28, 32, 60}
@@ -116,7 +116,17 @@ func main() {
 	base := func(n int) mtp1.Msg {
 		return mtp1.Msg{Salt: 0x1122334455667788, Session: -2, MsgID: 1600000000<<32 | 0x1235, SeqNo: 3, Body: pat(n, func(i int) byte { return byte(i*13 + 7) })}
 	}
+	curKey := keys[0]
+	var curPkt []byte
 	check := func(entry, class, id string, rep map[string]any, r result, allowed ...mtp1.Msg) {
+		// MTProto 1.0 does not authenticate the padding: an alteration confined to it leaves header and body -
+		// all that msg_key covers - intact, and any conformant implementation opens the packet to the sealed
+		// message. The reference decides: what it opens may be returned (and nothing else).
+		if curPkt != nil {
+			if m, _, err := mtp1.Open(curKey, curPkt, 8); err == nil {
+				allowed = append(allowed, m)
+			}
+		}
 		switch {
 		case r.panicked:
 			run.Violation(entry+"|"+class+"|panic|"+vr.MsgClass(r.pmsg)+"|"+r.fr, fmt.Sprintf("%s: panic: %s in %s", id, r.pmsg, r.fr), rep)
@@ -138,7 +148,8 @@ func main() {
 		for _, n := range lens {
 			m := base(n)
 			pkt := mtp1.Seal(key, m, pat(mtp1.PadLen(n), func(i int) byte { return byte(0xe0 + i) }), 8)
-			for entry, f := range entries {
+			for entry, f0 := range entries {
+				f := func(key, q []byte) result { curKey, curPkt = key, q; return f0(key, q) }
 				// sanity: the unmodified packet is accepted
 				r := f(key, pkt)
 				run.Eval(fmt.Sprintf("%s base k%d n%d", entry, ki, n), false)
